@@ -26,8 +26,9 @@ PREFIXES = ";#%|*"
 
 
 class Gen:
-    def __init__(self, rng):
+    def __init__(self, rng, flags=()):
         self.r = rng
+        self.flags = set(flags)
         self.features = set()
         self.nl_mode = rng.choice(["lf", "lf", "lf", "crlf", "mixed"])
 
@@ -186,7 +187,11 @@ class Gen:
         k = self.r.random()
         if k < 0.3:
             self.feat("meta-tags")
-            return self.sp0() + ":" + "".join(self.tag() + ":" for _ in range(self.r.randint(1, 3))) + self.sp0()
+            tail = self.sp0()
+            if "F27" in self.flags and self.chance(0.1):
+                self.feat("meta-tags-unicode-space")
+                tail += self.r.choice(["\u00a0", "\u3000", "\x0c"])
+            return self.sp0() + ":" + "".join(self.tag() + ":" for _ in range(self.r.randint(1, 3))) + tail
         if k < 0.55:
             self.feat("meta-kv")
             return self.sp0() + self.tag() + self.sp0() + ":" + self.sp0() + self.kv_text()
@@ -213,6 +218,9 @@ class Gen:
         m = re.match(r"[^ \t\r\n:]+[ \t]*:", body)
         if m or body.startswith(":"):
             return self.sp0() + "note" + self.r.choice(["", " x", " a b"])
+        if "F25" in self.flags and self.chance(0.1):
+            self.feat("meta-comment-tags-then-text")
+            return self.sp0() + ":" + self.tag() + ":" + self.r.choice([" x", "y", " :z", ": w:"])
         return s
 
     def metadata(self):
@@ -254,7 +262,11 @@ class Gen:
             items.append(("d", "[" + self.sp0() + self.date() + self.sp0() + "]"))
         if self.chance(0.5):
             self.feat("lot-note")
-            note = self.free_text(exclude="()@\t") or "n"
+            note = self.free_text(exclude="()@\t")
+            if not note and "F24" not in self.flags:
+                note = "n"
+            if not note:
+                self.feat("lot-note-empty")
             items.append(("n", "(" + note + ")"))
         self.r.shuffle(items)
         if len(items) >= 2:
@@ -328,8 +340,10 @@ class Gen:
                 s += self.sp1()
         if self.chance(0.2):
             self.feat("header-inline-meta")
-            if not has_note:
-                s += self.sp1()          # F23: metadata directly after the date is rejected; kept in its own stream
+            if not has_note and ("F23" not in self.flags or self.chance(0.5)):
+                s += self.sp1()
+            elif not has_note:
+                self.feat("header-meta-after-date")
             s += self.metadata()
         s += self.nl()
         n_meta = self.r.choice([0, 0, 0, 1, 2])
@@ -468,7 +482,7 @@ FIXED_WITNESSES = [
     ("F10", "commodity USD\n    ;c1\n    ;  c2\n"),
     ("F11", "2024/01/01 x\n    Liabilities:CreditCard:VeryLongAccountNameThatGoesOnAndOnAndOn:limit  = 0\n"),
     ("F17", "2024/01/01 x\n    A  1 USD\n    \n2024/01/02 y\n"),
-    ("F17", "  \n\t\n2024/01/01 x\n \n ; c\n\t"),
+    ("F17", "  \n\t\n2024/01/01 x\n \n; c\n\t"),
     ("F18", "2024/01/01 x\n    A  (5-3)\n    B  (5- 3 USD)\n    C  (5 -3)\n"),
 ]
 
@@ -477,7 +491,26 @@ CANDIDATES = {
     "F23": ["2024/01/01;foo\n", "2024/01/01=2024/01/02;:a:\n    A  1 USD\n"],
     "F24": ["2024/01/01 x\n  A  10 USD ()\n", "2024/01/01 x\n  A  10 USD {1 EUR} () [2024/01/01]\n"],
     "F25": ["2024/01/01 x\n  A  10 USD\n  ; :a:b: trailing\n", "2024/01/01 x\n  A  10 USD ; :a:b: trailing\n"],
+    # round trip changes the tree: tag words followed by non-blank white space are a comment that prints as tag words
+    "F27": ["2024/01/01 x ; :a:b:\u00a0\n", "2024/01/01 x\n  A  1 USD\n  ; :a:b:\u3000\n", "2024/01/01 x\n  A  1 USD ;:t:\x0c\n"],
 }
+
+# round trip changes the tree (F28): an account made only of Unicode white space is trimmed to the empty string
+CANDIDATES["F28"] = ["2024/01/01 x\n \u3000\n    B  1 USD\n", "2024/01/01 x\n \u00a0  1 USD\n"]
+
+_COMMENT_ATOM = re.compile(r"\(comment ([^ ()]+)\)")
+_TAGWORDS = re.compile(r"^(:[^ \t\n\x0c\r:]+)+:$")
+
+
+def defect_class(rec):
+    """decidable class predicates of the recorded round-trip defects, evaluated on the parsed tree"""
+    if "(post ~ " in rec:
+        return "F28"
+    for m in _COMMENT_ATOM.finditer(rec):
+        if _TAGWORDS.match(dec(m.group(1))):
+            return "F27"
+    return None
+
 
 MALFORM_ALPHABET = " \t\r\n;:()[]{}@=*!-+/,.0159aZé日#%|\u3000"
 
@@ -603,8 +636,9 @@ def run(chk):
             for t in texts:
                 cases.append(("candidate:" + fid, t, {"candidate:" + fid}))
     # 2. grammar-directed texts
+    flags = [fid for fid in CANDIDATES if all_findings.get(fid, {}).get("status") == "fixed"]
     for _ in range(n_gram):
-        g = Gen(rng)
+        g = Gen(rng, flags)
         cases.append(("grammar", g.ledger(), g.features))
     # 3. malformed
     n_mal = len(cases) // 3
@@ -665,62 +699,66 @@ def run(chk):
         rerun = "printf '%%s\\n' '%s' | /verif/work/target/debug/hx c05 parse" % lines[i]
         accepted = tail == "done"
         base = {"text": t, "case": lines[i], "kind": kind, "rerun": rerun}
-        # ---- known findings / candidates: rejected documented-grammar text
-        if kind.startswith("known:") or kind.startswith("candidate:"):
-            fid = kind.split(":")[1]
-            if accepted:
-                chk.count("candidate-now-accepted:" + fid)
-            elif kind.startswith("known:") and fid not in seen_known:
-                seen_known.add(fid)
-                chk.known_finding(fid, "documented-grammar text still rejected: %r -> %s" % (t, tail))
-            # model must still agree below
+        special = kind.startswith("known:") or kind.startswith("candidate:")
+        fails = []    # (summary, replay extras)
         # ---- oracle (a): every text of the documented grammar is accepted
-        elif kind in ("grammar", "corpus") and not accepted:
-            chk.oracle_failures += 1
-            chk.violation("documented-grammar text rejected by parse_ledger (%s)" % tail,
-                          dict(base, expected="accepted", observed=iparse[i], features=sorted(feats)))
-            continue
-        elif tail.startswith("panic"):
-            chk.oracle_failures += 1
-            chk.violation("parse_ledger panicked", dict(base, observed=iparse[i]))
-            continue
+        if kind in ("grammar", "corpus") or special:
+            if not accepted:
+                fails.append(("documented-grammar text rejected by parse_ledger (%s)" % tail,
+                              dict(expected="accepted", observed=iparse[i], features=sorted(feats))))
+        if tail.startswith("panic"):
+            fails.append(("parse_ledger panicked", dict(observed=iparse[i])))
         # ---- oracles (b), (c): only for texts that parse
-        bad = False
         if accepted:
             if f1[i] is None:
-                chk.oracle_failures += 1
-                chk.violation("text parses but okane format fails on it (%s)" % ifmt[i], dict(base, observed=ifmt[i]))
-                bad = True
+                fails.append(("text parses but okane format fails on it (%s)" % ifmt[i], dict(observed=ifmt[i])))
             else:
                 m1, _ = meaning(iparse[i])
                 m2, tail2 = meaning(iparse2[i])
                 if tail2 != "done" or m1 != m2:
-                    chk.oracle_failures += 1
                     first = next((j for j, (a, b) in enumerate(zip(m1, m2)) if a != b), min(len(m1), len(m2)))
-                    chk.violation("formatting changes the meaning: parse(format t) != parse t (entry %d)" % first,
-                                  dict(base, formatted=f1[i], parse_of_text=iparse[i], parse_of_formatted=iparse2[i],
-                                       expected="same entries", features=sorted(feats)))
-                    bad = True
+                    fails.append(("formatting changes the meaning: parse(format t) != parse t (entry %d)" % first,
+                                  dict(formatted=f1[i], parse_of_text=iparse[i], parse_of_formatted=iparse2[i],
+                                       expected="same entries", features=sorted(feats))))
                 f2 = fmt_out(ifmt2[i])
                 if f2 != f1[i]:
-                    chk.oracle_failures += 1
-                    chk.violation("format is not idempotent: format(format t) != format t",
-                                  dict(base, formatted_once=f1[i], formatted_twice=f2, features=sorted(feats)))
-                    bad = True
+                    fails.append(("format is not idempotent: format(format t) != format t",
+                                  dict(formatted_once=f1[i], formatted_twice=f2, features=sorted(feats))))
         elif ifmt[i].startswith("ok") or ifmt[i].startswith("panic"):
-            chk.oracle_failures += 1
-            chk.violation("okane format on a text that does not parse: %s" % ifmt[i][:40], dict(base, observed=ifmt[i]))
-            bad = True
+            fails.append(("okane format on a text that does not parse: %s" % ifmt[i][:40], dict(observed=ifmt[i])))
         # ---- oracle (d): end of file ends the last line
-        if i in iparse3 and kind != "malformed":
+        if i in iparse3 and kind in ("grammar", "corpus"):
             a, ta = meaning(iparse[i])
             b, tb = meaning(iparse3[i])
             if (ta == "done") != (tb == "done") or (ta == "done" and a != b):
-                chk.oracle_failures += 1
-                chk.violation("a final line ended by end of file is read differently from one ended by a new-line",
-                              dict(base, parse_without_newline=iparse[i], parse_with_newline=iparse3[i]))
-                bad = True
-        if bad:
+                fails.append(("a final line ended by end of file is read differently from one ended by a new-line",
+                              dict(parse_without_newline=iparse[i], parse_with_newline=iparse3[i])))
+        bad = bool(fails)
+        if special:
+            fid = kind.split(":")[1]
+            if not fails:
+                chk.count("recorded-defect-no-longer-reproduces:" + fid)
+            elif kind.startswith("known:"):
+                if fid not in seen_known:
+                    seen_known.add(fid)
+                    chk.known_finding(fid, "%s: %r" % (fails[0][0], t))
+            else:
+                chk.count("unrecorded-candidate-reproduces:" + fid)
+        elif fails:
+            fid = defect_class(iparse[i])
+            st = all_findings.get(fid, {}).get("status") if fid else None
+            if fid and st == "known":
+                chk.count("known-class:" + fid)
+                if fid not in seen_known:
+                    seen_known.add(fid)
+                    chk.known_finding(fid, "%s: %r" % (fails[0][0], t))
+            elif fid and st is None:
+                chk.count("unrecorded-candidate-reproduces:" + fid)
+            else:
+                for summary, extra in fails:
+                    chk.oracle_failures += 1
+                    chk.violation(summary, dict(base, **extra))
+        if bad and not special and defect_class(iparse[i]) is None:
             continue
         # ---- correspondence: model vs implementation
         if iparse[i] != mparse[i]:
